@@ -881,9 +881,22 @@ func rulePartition(r *core.Run) {
 	}
 	// the classification loop: the range over order.Shards containing those appends (in the handler or in the
 	// helper that collects the lists)
+	handler := fn
 	fn = classFn
+	var classFr *frame
+	for _, fr := range frames(r, handler) {
+		if fr.Fn == classFn {
+			x := fr
+			classFr = &x
+			break
+		}
+	}
 	for _, l := range cfgx.Loops(fn) {
-		if !rangesField(r, fn, l, "Shards") {
+		ro := rangedOver(r, fn, l)
+		if classFr != nil {
+			ro = normT(classFr.Sub(ro)) // the list may be handed to the helper as a parameter
+		}
+		if ro == "" || !strings.HasSuffix(ro, ".Shards") || strings.HasPrefix(ro, "phi(") || strings.HasPrefix(ro, "builtin.append(") {
 			continue
 		}
 		inside := false
